@@ -43,9 +43,9 @@ def validate(ctx, recs, dev, has_timeout, label):
     if not recs:
         return set()
     wd = vlib.workdir("C01")
-    tr = os.path.join(wd, "trace-%s.ndjson" % label)
+    tr = os.path.join(wd, "trace-%s-%d.ndjson" % (label, os.getpid()))    # unique per run: two C01 runs may overlap
     vlib.write_lines(tr, recs)
-    cfg = os.path.join(D, "_trace_%s.cfg" % label)
+    cfg = os.path.join(D, "_trace_%s_%d.cfg" % (label, os.getpid()))
     trace_cfg(cfg, dev, has_timeout)
     try:
         r = run_tlc("Trace_HttpConn.tla", os.path.basename(cfg), D, workers=4, env={"TRACE": tr}, timeout=1500,
